@@ -95,6 +95,29 @@ def run(chk):
         p = work / ("g%d.utb" % i)
         p.write_text(text)
         cmds.append(("generated:%d" % i, "I %s" % p, text))
+    # case folding: context rules whose literal contains capitals based on lower-case letters are moved to the bucket of the
+    # folded characters when the table is finalised, among always / word-position rules of the same and other lengths
+    for i in range(30 if quick else 600):
+        r = rng.fork(("fold", i))
+        low = "abcd"
+        lines = ["space \\s 0"] + ["lowercase %s %s" % (c, tablegen.dots_text(r.range(1, 63))) for c in low]
+        lines += ["base uppercase %s %s" % (c.upper(), c) for c in low]
+        body = []
+        for _ in range(r.range(3, 10)):
+            n = r.range(2, 3)
+            w = "".join(r.choice(low) for _ in range(n))
+            k = r.below(4)
+            if k == 0:
+                body.append("always %s %s" % (w, tablegen.dots_text(r.range(1, 63))))
+            elif k == 1:
+                body.append("%s %s %s" % (r.choice(["begword", "endword", "midword", "partword"]), w, tablegen.dots_text(r.range(1, 63))))
+            else:
+                cw = "".join(ch.upper() if r.chance(0.6) else ch for ch in w)
+                body.append('%s context "%s" @%s' % (r.choice(["noback", "noback", "nofor"]), cw, tablegen.dots_text(r.range(1, 63))))
+        text = "\n".join(lines + body) + "\n"
+        p = work / ("f%d.utb" % i)
+        p.write_text(text)
+        cmds.append(("generated:fold%d" % i, "I %s" % p, text))
     # run-time additions that force the image to grow through several reallocations: every prefix is dumped
     from props import c15
     for i in range(6 if quick else 80):
